@@ -152,7 +152,8 @@ LEVEL_TEXT = (
     "corrupted header is outstanding (ignored until retry_received); every LGOOD is owed and carries the next sequence number (k-th accepted header "
     "<-> LGOOD of its number, after the advertisement); every LCRD is owed (one per buffer at link entry, one per header taken) with indices A,B,C,D "
     "in order, so partner credits + buffered + owed = n; every LBAD is owed. (3) C37_receiver_meets_spec: the composition raw receiver + bookkeeping "
-    "against the sink-level specification (parser + verdict + monitor). (4) Ties: the netlist regenerated from /repo of HeaderPacketReceiver's "
+    "against the sink-level specification (parser + verdict + monitor); C37_exactly_once_in_order: for any stretch the monitor accepts with the link up, headers delivered ++ headers still queued = "
+    "headers queued before ++ headers accepted. (4) Ties: the netlist regenerated from /repo of HeaderPacketReceiver's "
     "bookkeeping (shrunk configuration, see assumptions) is proved equal to the model in lock step on all traces over explicit input alphabets "
     "(certified product reachability), giving netlist |= sp_mon; the unmodified RawHeaderPacketReceiver and HeaderPacketReceiver(4) are compared with "
     "the models and checked by the specification monitors on simulator traces (correspondence, not proof).")
